@@ -170,7 +170,8 @@ Print Assumptions C09_emergency_stop_except.
    group's active flag, speed field 0, the group's function byte [fbyte] in its place and 0 elsewhere; bit k of
    fbyte is on iff k is the requested bit and state = 1, or another configured function of the group sits at k and
    its tracked value is 1 (fn_spec_bit); in the tracked state exactly the requested function changes.
-   Excluded input classes: state > 1, bits 5..7, addrh >= 64 (C09_functions_refuted, C09_speed_state_refuted). ---- *)
+   State > 1: C09_functions_bad_state.  Excluded input classes: bits 5..7, addrh >= 64 (C09_functions_refuted,
+   C09_speed_state_refuted). ---- *)
 Theorem C09_functions_except : forall w tr b m st, wfb w = true ->
   In tr (w_trains w) -> In b (w_boards w) -> b_conn b = true -> is_track_output b = true -> tr_addrh tr < 64 ->
   In m (tr_pers tr) -> st <= 1 -> tp_bit m < 5 \/ 8 <= tp_bit m ->
@@ -203,13 +204,15 @@ Theorem C09_any_order : forall es w, wfb w = true -> exists os w', run w es = So
 Proof. exact run_wf. Qed.
 Print Assumptions C09_any_order.
 
-(* ---- function bits: the recorded defects ---- *)
-Theorem C09_functions_refuted :
-  (exists w', cmd wit_world (SetTrainPeripheral 7 8 2 1) = Done 0 [((0, 0, 0), MSG_CS_DRIVE, [35; 1; 3; 2; 0; 2; 0; 0; 0])] w' /\
-              tracked wit_world 7 9 = Some 0 /\ tracked w' 7 8 = Some 0 /\ tracked w' 7 9 = Some 1) /\
-  cmd wit_world (SetTrainPeripheral 7 8 255 1) = Done 0 [] wit_world /\
-  cmd wit_world (SetTrainPeripheral 7 10 1 1) = Done 0 [] wit_world.
-Proof. exact (conj wit_function_state2 (conj wit_function_state255 wit_function_bit6)). Qed.
+(* ---- function bits: a state other than 0/1 is a rejected command for every world (repaired in /repo fafecdd;
+   together with C09_functions_except this covers all state values).  Remaining recorded defect: a function
+   configured on bit 5..7 returns 0 and transmits nothing when switched on. ---- *)
+Theorem C09_functions_bad_state : forall w t p st o, 1 < st -> cmd w (SetTrainPeripheral t p st o) = Done 1 [] w.
+Proof. exact function_bad_state. Qed.
+Print Assumptions C09_functions_bad_state.
+
+Theorem C09_functions_refuted : cmd wit_world (SetTrainPeripheral 7 10 1 1) = Done 0 [] wit_world.
+Proof. exact wit_function_bit6. Qed.
 Print Assumptions C09_functions_refuted.
 
 (* ---- optimistic update goes to the wrong train when a configured DCC address has high bits in addrh ---- *)
